@@ -97,12 +97,34 @@ def k_args(run, case):
     run.seen(case, core.digest(arrA["p"], arrB["p"], fname, case["rs"]), cls=["args:" + fname, "storage:" + mA],
              sample={"function": fname, "n": len(arrA["p"]), "storage": mA})
     rel = list(metrics.PoseRelation)[rng.integers(7)]
+    if fname in ("APE.process_data", "RPE.process_data") and rng.random() < .35:
+        # odometry that starts at the origin (first pose exactly the identity), a reference resting
+        # at its first pose for a while; the values are converted to another length unit afterwards
+        arrB["p"] = arrB["p"] - arrB["p"][0]
+        arrB["R"] = np.array([arrB["R"][0].T @ Rk for Rk in arrB["R"]])
+        arrB["p"][0], arrB["R"][0] = 0.0, np.eye(3)
+        B = gen.make_evo(arrB, mB, flavour="array64")
+        if rng.random() < .6 and len(arrA["p"]) > 2:
+            # the reference starts at the origin as well and rests there for the first step
+            arrA["p"] = arrA["p"] - arrA["p"][0]
+            arrA["R"] = np.array([arrA["R"][0].T @ Rk for Rk in arrA["R"]])
+            arrA["p"][0], arrA["R"][0] = 0.0, np.eye(3)
+            arrA["p"][1], arrA["R"][1] = 0.0, np.eye(3)
+            A = gen.make_evo(arrA, mA, flavour="array64")
+        rel = [metrics.PoseRelation.translation_part, metrics.PoseRelation.full_transformation][rng.integers(2)]
+
+    def evaluate(m):
+        m.process_data((A, B))
+        if m.unit == Unit.meters:
+            m.change_unit([Unit.millimeters, Unit.centimeters, Unit.kilometers][rng.integers(3)])
+        return m.get_all_statistics()
+
     if fname == "APE.process_data":
         m = metrics.APE(rel if rel != metrics.PoseRelation.point_distance_error_ratio else metrics.PoseRelation.full_transformation)
-        guarded(run, case, fname, {"ref": A, "est": B}, lambda: m.process_data((A, B)))
+        guarded(run, case, fname, {"ref": A, "est": B}, lambda: evaluate(m))
     elif fname == "RPE.process_data":
-        m = metrics.RPE(rel, float(rng.integers(1, 4)), Unit.frames, all_pairs=bool(rng.random() < .5))
-        guarded(run, case, fname, {"ref": A, "est": B}, lambda: m.process_data((A, B)))
+        m = metrics.RPE(rel, float(rng.integers(1, 3)), Unit.frames, all_pairs=bool(rng.random() < .5))
+        guarded(run, case, fname, {"ref": A, "est": B}, lambda: evaluate(m))
     elif fname == "statistics/get_result":
         m = metrics.APE(metrics.PoseRelation.translation_part)
         m.process_data((A, B))
